@@ -57,6 +57,9 @@ def _dag(rnd):
         k = rnd.choice(['xor', 'xor', 'and', 'or', 'not', 'id'])
         cnt = 1 if k in ('not', 'id') else rnd.randint(2, 3)
         ins = [{'t': rnd.choice(['blk', 'name']), 'x': rnd.randint(lo, idx - 1)} for _ in range(cnt)]
+        if rnd.random() < 0.08:
+            # a block fed by constants only / by nothing: evaluated once, at the start
+            ins = [{'t': 'const', 'x': rnd.randint(0, 1)} for _ in range(cnt)] if rnd.random() < 0.6 or k in ('not', 'id') else []
         blocks.append(_c(f'c{j + 1}', k, ins))
     if rnd.random() < 0.35:
         # a source that is connected to no combinational block and only forwards its value by an
